@@ -6,7 +6,8 @@
    current source.  Parity with the Rust API is a differential statement
    (harness/src/bin/c19.rs, Capi/CapiCheck.v). *)
 From Coq Require Import List NArith Bool.
-From YV Require Import Gen.CapiEffects Capi.LastError Capi.LastErrorProofs.
+From Coq Require Import String.
+From YV Require Import Gen.CapiEffects Capi.LastError Capi.Flags Capi.LastErrorProofs.
 Import ListNotations.
 Local Open Scope N_scope.
 
@@ -61,6 +62,17 @@ Theorem set_message_total : forall m : list N,
   forallb (fun b => negb (N.eqb b 0)) m = true -> to_cstring set_conversion m = Some m.
 Proof. exact to_cstring_total_lemma. Qed.
 Print Assumptions set_message_total.
+
+(* every flag that _yrx_compiler_create tests switches the compiler option it
+   is named after (YRX_ERROR_ON_SLOW_LOOP -> error_on_slow_loop(true),
+   YRX_DISABLE_INCLUDES -> enable_includes(false), ...); every flag constant
+   is tested; the flags are distinct single bits; yrx_compiler_build re-creates
+   the compiler with the stored flags (finite fact over the generated table) *)
+Theorem compiler_flags_named_identically :
+  (forall c v m a, In (c, v, m, a) compiler_flags -> expected_method c = Some (m, a)) /\
+  flags_table_ok = true.
+Proof. split; [exact flags_named_lemma|exact flags_table_ok_now]. Qed.
+Print Assumptions compiler_flags_named_identically.
 
 (* non-vacuity: an admissible two-thread history in which thread 0 fails to
    compile, thread 1 succeeds, thread 0 reads its message *)
